@@ -25,6 +25,10 @@ func layoutH(line string) string {
 		for _, c := range comments {
 			r[i].c = append(r[i].c, c.Text)
 		}
+		if f[2*i+1] == "*" {
+			// the comments of this rendering are not predicted
+			continue
+		}
 		var want []string
 		for _, h := range splitNE(f[2*i+1], ",") {
 			want = append(want, unhex(strings.TrimPrefix(h, "c")))
